@@ -157,6 +157,9 @@ def check_writer(model: Model, report: Report, rule_w: str, rule_rt: str) -> Non
     except Unsupported as err:
         report.undecided(rule_rt, "lex.lex_string_factory", str(err))
         return
+    for k_, msg_ in lx["problems"]:
+        if k_ == "lex:close-text":
+            report.fail(rule_rt, "lex.lex_string_factory", "reader:token-text", f"the reader does not recover the name the writer wrote: {msg_}")
     bad2: Dict[str, Any] = {}
     for s in tests:
         text = chain.apply(s)
